@@ -7,13 +7,14 @@ interpreter, because a race may leave process-wide state behind that hides the n
 of the same operations once more, alone, afterwards — is compared with what they yield alone in a pristine interpreter.
 
 This explores exactly the schedules with one context switch away from A and one back; the GIL makes line boundaries (more
-precisely bytecode boundaries) the only switch points, and a generator expression, comprehension or nested call has its own
+precisely bytecode boundaries) the only switch points (when B blocks on a lock that A holds, A is resumed and B finishes afterwards), and a generator expression, comprehension or nested call has its own
 line events, so a check-then-act that spans two lines or a line and a callee is split by some k.
 """
 import json
 import os
 import sys
 import threading
+import time
 
 import common
 
@@ -52,7 +53,7 @@ def _run_with_pause(op_a, op_b, k, after):
             state["n"] += 1
             if state["n"] == k:
                 paused.set()
-                resume.wait(30)
+                resume.wait(120)
         return local
 
     def run_a():
@@ -66,7 +67,30 @@ def _run_with_pause(op_a, op_b, k, after):
     t = threading.Thread(target=run_a)
     t.start()
     paused.wait(60)
-    b = op_b() if (k is not None and state["n"] >= (k or 0) and t.is_alive()) else None
+    b = None
+    if k is not None and state["n"] >= (k or 0) and t.is_alive():
+        # B runs while A is suspended.  If B cannot finish because it WAITS for something A holds (a lock), a real scheduler would
+        # switch back to A: A is resumed after a grace period and B is left to finish afterwards.
+        box = {}
+
+        def run_b():
+            box["b"] = op_b()
+        tb = threading.Thread(target=run_b)
+        tb.start()
+        # "blocked" = B's innermost Python frame has not moved for `still` seconds (an acquire of a held lock sits in C under one line)
+        still = float(os.environ.get("VERIF_SCHED_STILL", "0.12"))
+        last, since, deadline = None, time.time(), time.time() + 60
+        while tb.is_alive() and time.time() < deadline:
+            tb.join(0.004)
+            fr = sys._current_frames().get(tb.ident)
+            pos = (fr.f_code.co_filename, fr.f_lineno, fr.f_lasti) if fr is not None else None
+            if pos != last:
+                last, since = pos, time.time()
+            elif time.time() - since > still:
+                break
+        resume.set()
+        tb.join(120)
+        b = box.get("b")
     resume.set()
     t.join(120)
     return state["a"], b, [f() for f in after], state["n"]
